@@ -206,6 +206,9 @@ func (e *Engine) contextIntrinsic(name string, fn *ssa.Function) (handler, bool)
 				at := t
 				if isTimeout {
 					at = AddX(e.timeNow(), t)
+					if ch.done != nil {
+						ch.done.due = e.dueIn(t)
+					}
 				}
 				// an earlier inherited deadline wins
 				if inh, ok := e.callMethod(a[0].(iface), "Deadline").(tuple); ok {
@@ -293,6 +296,18 @@ func (e *Engine) durSub(a, b *Term) *Term {
 		nd.Hi = hi
 	}
 	return nd
+}
+
+// dueIn is the virtual deadline of a timer armed now for duration d (nil if d is not concrete).
+func (e *Engine) dueIn(d value) *big.Int {
+	t, ok := d.(*Term)
+	if !ok || !t.K {
+		return nil
+	}
+	if e.vclock == nil {
+		e.vclock = new(big.Int)
+	}
+	return new(big.Int).Add(e.vclock, t.C)
 }
 
 func (e *Engine) newTimer(f *ssa.Function) value {
@@ -392,10 +407,15 @@ func (e *Engine) timeIntrinsic(name string, fn *ssa.Function) (handler, bool) {
 	case "time.Sleep":
 		return func(c *frame, f *ssa.Function, a []value) value { e.sched.yield(); return nil }, true
 	case "time.NewTimer", "time.NewTicker":
-		return func(c *frame, f *ssa.Function, a []value) value { return e.newTimer(f) }, true
+		return func(c *frame, f *ssa.Function, a []value) value {
+			p := e.newTimer(f)
+			e.timers[p.(*value)].due = e.dueIn(a[0])
+			return p
+		}, true
 	case "time.After", "time.Tick":
 		return func(c *frame, f *ssa.Function, a []value) value {
 			ch := e.newChan(1)
+			ch.due = e.dueIn(a[0])
 			ch.mayFire = true
 			ch.onFire = func() { ch.q = append(ch.q, e.timeNow()); ch.sent++ }
 			return ch
@@ -441,6 +461,9 @@ func (e *Engine) timeIntrinsic(name string, fn *ssa.Function) (handler, bool) {
 				ch.af.armed = true
 			} else {
 				ch.mayFire = true
+			}
+			if len(a) > 1 {
+				ch.due = e.dueIn(a[1])
 			}
 			if f.Signature.Results().Len() == 0 {
 				return nil
